@@ -198,6 +198,12 @@ pub fn instance_candidates(inst: &Value) -> Vec<Value> {
 
 pub fn case_candidates(case: &Value) -> Vec<Value> {
     let mut out = vec![];
+    // process history first: without the prelude, then with a smaller one
+    if case.get("prelude").map(|p| p.is_object()).unwrap_or(false) {
+        let mut c = case.clone();
+        c.as_object_mut().unwrap().remove("prelude");
+        out.push(c);
+    }
     match case["sim"].as_str().unwrap_or("") {
         "a" => {
             for i in instance_candidates(&case["instance"]) {
@@ -221,6 +227,15 @@ pub fn case_candidates(case: &Value) -> Vec<Value> {
         "b" => out.extend(crate::sim_b::case_candidates(case)),
         "c" => out.extend(crate::sim_c::case_candidates(case)),
         _ => {}
+    }
+    if case.get("prelude").map(|p| p.is_object()).unwrap_or(false) {
+        for i in instance_candidates(&case["prelude"]).into_iter().take(16) {
+            if RefInstance::parse(&i).is_ok() {
+                let mut c = case.clone();
+                c["prelude"] = i;
+                out.push(c);
+            }
+        }
     }
     out
 }
